@@ -165,7 +165,7 @@ class World:
             if len(self.stack) >= 3:
                 return f
             before = global_snapshot()
-            ctx = Calibration(momentum=step.get("m", 0.9), streamline=step.get("streamline", True))
+            ctx = Calibration(momentum=step.get("m", 0.9), streamline=step.get("streamline", True), debug=step.get("debug", False))
             r = cut(ctx.__enter__)
             if isinstance(r, Raised):
                 f.append((f"enter/raises:{r.type}", r.text))
@@ -365,14 +365,17 @@ def make_machine(hook):
             self.trace = []
 
         def do(self, step):
+            import contextlib, io
+
             self.trace.append(step)
-            fails = self.w.apply(step) + self.w.invariants()
+            with contextlib.redirect_stdout(io.StringIO()):  # debug=True contexts print
+                fails = self.w.apply(step) + self.w.invariants()
             hook.step(self.trace, fails)
 
         @precondition(lambda self: len(self.w.stack) < 3)
-        @rule(m=st.sampled_from([0.0, 0.5, 0.9]), streamline=st.booleans())
-        def enter(self, m, streamline):
-            self.do({"op": "enter", "m": m, "streamline": streamline})
+        @rule(m=st.sampled_from([0.0, 0.5, 0.9]), streamline=st.booleans(), debug=st.sampled_from([False, False, False, True]))
+        def enter(self, m, streamline, debug):
+            self.do({"op": "enter", "m": m, "streamline": streamline, "debug": debug})
 
         @precondition(lambda self: len(self.w.stack) > 0)
         @rule()
